@@ -136,4 +136,111 @@ func (*Segments).Value
   ensures fresh(result)
   modifies nothing
   loop 0 inv fresh(result)
+
+// ---- reader: a cursor over the whole source (C18) ----
+// isView(b, src, p): b is the view of position p: p.Padding spaces, then src[p.Start:p.Stop]
+macro isView(b, src, p) = len(b) == p.Padding + p.Stop - p.Start &&
+  (forall k int :: 0 <= k && k < p.Padding ==> b[k] == ' ') &&
+  (forall k int :: p.Padding <= k && k < len(b) ==> b[k] == src[p.Start + k - p.Padding])
+
+// lineShape: [head, pos.Stop) is exactly one line of the source
+macro lineShape(r) = (r.head == 0 || r.head == r.sourceLength || r.source[r.head-1] == '\n') &&
+  (forall k int :: r.head <= k && k < r.pos.Stop - 1 ==> r.source[k] != '\n') &&
+  (r.pos.Stop < r.sourceLength ==> (r.pos.Stop > 0 && r.source[r.pos.Stop-1] == '\n')) &&
+  (r.pos.Start == r.pos.Stop ==> r.pos.Start == r.sourceLength)
+
+macro readerBase(r) = r.sourceLength == len(r.source) && r.line >= -1
+macro readerInv(r) = readerBase(r) && r.line >= 0 &&
+  0 <= r.head && r.head <= r.pos.Start && r.pos.Start <= r.pos.Stop && r.pos.Stop <= r.sourceLength &&
+  r.pos.Padding >= 0 && !r.pos.ForceNewline && lineShape(r) &&
+  (r.peekedLine != nil ==> isView(r.peekedLine, r.source, r.pos)) &&
+  (r.lineOffset >= 0 ==> r.lineOffset == colOf(r) - r.pos.Padding)
+
+// remaining(r): number of bytes of the view from the cursor to the end of the source
+macro remaining(r) = (r.pos.Start < r.sourceLength ? r.pos.Padding + r.sourceLength - r.pos.Start : 0)
+
+// col(a, h, k): tab-expanded column reached after the bytes [h, k) of byte array a (absolute indices)
+ghost col(a int, h int, k int) int
+macro colOf(r) = col(arrof(r.source), offof(r.source) + r.head, offof(r.source) + r.pos.Start)
+
+func (*reader).Source
+  ensures sameslice(result, r.source)
+  modifies nothing
+
+func (*reader).Value
+  requires validSeg(seg, len(r.source))
+  ensures len(result) == seg.Padding + seg.Stop - seg.Start + (forcedNL(seg, r.source) ? 1 : 0)
+  ensures forall k int :: 0 <= k && k < seg.Padding ==> result[k] == ' '
+  ensures forall k int :: seg.Padding <= k && k < seg.Padding + seg.Stop - seg.Start ==> result[k] == r.source[seg.Start + k - seg.Padding]
+  ensures fresh(result) || (arrof(result) == arrof(r.source) && cap(result) == len(result))
+  modifies nothing
+
+func (*reader).Peek
+  uses spaceFacts
+  requires readerInv(r)
+  ensures r.pos.Start < r.sourceLength ==> result == (r.pos.Padding != 0 ? ' ' : r.source[r.pos.Start])
+  ensures r.pos.Start >= r.sourceLength ==> result == 255
+  modifies nothing
+
+func (*reader).PeekLine
+  requires readerInv(r)
+  ensures readerInv(r)
+  ensures sameSeg(result1, r.pos) && sameSeg(r.pos, old(r.pos)) && r.line == old(r.line) && r.head == old(r.head) && r.lineOffset == old(r.lineOffset)
+  ensures r.pos.Start < r.sourceLength ==> (result0 != nil && isView(result0, r.source, r.pos) && len(result0) > 0)
+  ensures r.pos.Start >= r.sourceLength ==> result0 == nil
+  modifies r.peekedLine
+
+func (*reader).Position
+  ensures result0 == r.line && sameSeg(result1, r.pos)
+  modifies nothing
+
+func (*reader).AdvanceLine
+  requires readerBase(r) && 0 <= r.pos.Stop && r.pos.Stop <= r.sourceLength && !r.pos.ForceNewline
+  requires r.pos.Stop == 0 || r.pos.Stop == r.sourceLength || r.source[r.pos.Stop-1] == '\n'
+  ensures readerInv(r)
+  ensures r.pos.Start == old(r.pos.Stop) && r.head == r.pos.Start && r.pos.Padding == 0 && r.line == old(r.line) + 1
+  ensures r.peekedLine == nil && r.lineOffset == -1
+  modifies r.lineOffset, r.peekedLine, r.pos, r.head, r.line
+  loop 0 inv r.pos.Start <= i && i <= r.sourceLength && r.pos.Stop == r.sourceLength
+  loop 0 inv forall k int :: r.pos.Start <= k && k < i ==> r.source[k] != '\n'
+  loop 0 inv r.pos.Start == old(r.pos.Stop) && r.head == r.pos.Start && r.line == old(r.line) && r.peekedLine == nil && r.lineOffset == -1
+  loop 0 inv r.sourceLength == len(r.source) && !r.pos.ForceNewline == !old(r.pos.ForceNewline) && r.pos.Padding == old(r.pos.Padding)
+  loop 0 dec r.sourceLength - i
+
+func (*reader).Advance
+  requires readerInv(r) && 0 <= n && n <= remaining(r)
+  ensures readerInv(r)
+  ensures [moved] remaining(r) == old(remaining(r)) - n
+  ensures [sameLine] n < old(r.pos.Padding + r.pos.Stop - r.pos.Start) ==> (r.line == old(r.line) && r.head == old(r.head) && r.pos.Stop == old(r.pos.Stop))
+  ensures r.peekedLine == nil && r.lineOffset == -1
+  modifies r.lineOffset, r.peekedLine, r.pos, r.head, r.line
+  loop 0 inv readerInv(r) && r.peekedLine == nil && r.lineOffset == -1 && 0 <= n && l == r.sourceLength
+  loop 0 inv [moved] remaining(r) - n == old(remaining(r)) - old(n)
+  loop 0 inv [sameLine] (old(n) - n) < old(r.pos.Padding + r.pos.Stop - r.pos.Start) ==> (r.line == old(r.line) && r.head == old(r.head) && r.pos.Stop == old(r.pos.Stop) && r.pos.Padding + r.pos.Stop - r.pos.Start == old(r.pos.Padding + r.pos.Stop - r.pos.Start) - (old(n) - n))
+  loop 0 dec n
+
+func (*reader).SetPadding
+  requires readerInv(r) && v >= 0
+  ensures readerInv(r) && r.pos.Padding == v && r.pos.Start == old(r.pos.Start) && r.pos.Stop == old(r.pos.Stop) && r.line == old(r.line) && r.head == old(r.head)
+  modifies r.pos, r.peekedLine, r.lineOffset
+
+func (*reader).AdvanceAndSetPadding
+  requires readerInv(r) && 0 <= n && n <= remaining(r) && padding >= 0
+  ensures readerInv(r)
+  modifies r.lineOffset, r.peekedLine, r.pos, r.head, r.line
+
+// validPos(r, line, pos): (line, pos) is a position Position() can have returned for this source
+macro validPos(r, p) = 0 <= p.Start && p.Start <= p.Stop && p.Stop <= r.sourceLength && p.Padding >= 0 && !p.ForceNewline &&
+  (forall k int :: p.Start <= k && k < p.Stop - 1 ==> r.source[k] != '\n') &&
+  (p.Stop < r.sourceLength ==> (p.Stop > 0 && r.source[p.Stop-1] == '\n')) &&
+  (p.Start == p.Stop ==> p.Start == r.sourceLength)
+
+func (*reader).SetPosition
+  requires readerBase(r) && line >= 0 && validPos(r, pos)
+  ensures readerInv(r) && r.line == line && sameSeg(r.pos, pos)
+  modifies r.lineOffset, r.line, r.pos, r.peekedLine, r.head
+  loop 0 inv 0 <= head && head <= pos.Start && r.sourceLength == len(r.source)
+  loop 0 inv forall k int :: head <= k && k < pos.Start ==> r.source[k] != '\n'
+  loop 0 inv r.lineOffset == -1 && r.peekedLine == nil && r.line == line && sameSeg(r.pos, pos)
+  loop 0 dec head
 @*/
